@@ -125,6 +125,27 @@ def task_routine(ctx, rname, sname, xp):
     seg = [xv >= Q(xp[i]), xv <= Q(xp[i + 1])]
     decide(ctx, 'inside.equals_reference_interpolant_and_bounded_by_neighbours', dict(conf, segment=i), box + seg,
            z3.Or(z3.Not(close(r, refv)), r < lo - eps, r > hi + eps), replay=mk_replay(ref_interp), spec=[xv > Q(xp[i]), xv < Q(xp[i + 1])])
+  # (2b) storage dtype: integer-valued data held in an int64 array (level indices, category codes) interpolate like the same values in float64
+  try:
+    fpi = TermArr.variables(sp, 'fpi', (n,), sort='int')
+    cli = jax.make_jaxpr(lambda x, fp: fn(x, jnp.asarray(xp), fp))(0.5, jnp.zeros(n, jnp.int64))
+    out_i = Interp(sp).run(cli, x, fpi)[0]
+    out_f = Interp(sp).run(cl, x, fpi.to_float())[0]
+    ri = _r(TermArr(np.asarray(out_i.a, dtype=object).reshape(-1), sp).to_float().a[0]); rf = _r(out_f.a.reshape(-1)[0])
+    fi = list(fpi.a)
+
+    def rp_int(model):
+      xc = _val(model, xv); fc = [int(model.eval(v, model_completion=True).as_long()) for v in fi]
+      got = float(jf(xc, jnp.asarray(fc, jnp.int64))); exp = float(jf(xc, jnp.asarray(fc, jnp.float64)))
+      bad = (np.isnan(got) != np.isnan(exp)) or (not np.isnan(got) and abs(got - exp) > 1e-9 * max(1.0, abs(exp)))
+      return (f'{rname}({xc}; nodes {sname}) on int64 data {fc} = {got}, on the same values in float64 = {exp}', dict(inputs=[xc, fc], got=got, expected=exp)) if bad else None
+    if ri.eq(rf):
+      ctx.clause('integer_stored_data_interpolate_like_their_values', 'discharged', config=dict(conf, identical_terms=True), queries=0)
+    else:
+      decide(ctx, 'integer_stored_data_interpolate_like_their_values', conf, [z3.And(v >= -8, v <= 8) for v in fi] + [xv >= Q(xp[0] - 2 * span), xv <= Q(xp[-1] + 2 * span)],
+             z3.Or(z3.And(ri == z3.RealVal(NAN), rf != z3.RealVal(NAN)), z3.And(ri != z3.RealVal(NAN), rf == z3.RealVal(NAN)), ri - rf > eps, rf - ri > eps), replay=rp_int)
+  except Exception as e_:  # noqa: BLE001
+    ctx.error('integer_stored_data_interpolate_like_their_values', f'{type(e_).__name__}: {e_}')
   # (3) exact on affine data  fp_i = a + b xp_i  (a, b symbolic)
   a, b = z3.Real('a'), z3.Real('b')
   aff = [f[i] == a + b * Q(xp[i]) for i in range(n)] + [a >= -1, a <= 1, b >= -1, b <= 1]
